@@ -13,11 +13,15 @@ CHECKS = {
     "C01": dict(
         level="exploration", design="5 C01",
         technique="runtime monitoring: counting probe receiver (exactly-once / not-before-start) + lost-completion "
-                  "rule at quiescence over generated sender expressions x enumerated leaf orders and stop points, ASan+UBSan",
+                  "rule at quiescence over generated sender expressions (incl. when_all_range, variant_sender) x enumerated leaf "
+                  "orders and stop points, ASan+UBSan; plus exactly-once/lost-item counters of the scheduler stress harness "
+                  "(thread pool, event loop, timed context, new-thread context stopped right after the last accepted item)",
         text="Every execution of every generated expression/scenario is watched by a completion-protocol monitor "
              "(second signal, signal before start, signal on a never-started operation) and compared with a reference "
              "model that says when the outer receiver must have been completed (lost completion). Holds on the "
-             "executions explored, not for all programs/schedules.",
+             "executions explored, not for all programs/schedules. schedule() operations of the real execution contexts are "
+             "counted too: each started operation must complete exactly once even when its context is stopped or destroyed "
+             "right after accepting it.",
         note=EXPR_NOTE),
     "C02": dict(
         level="fault_enumeration", design="5 C02",
@@ -162,11 +166,15 @@ CHECKS["C17"] = dict(
     level="exploration", design="5 C17",
     technique="runtime monitoring over enumerated inputs: per-index visit counters, terminal/overlap monitors on a custom "
               "bulk receiver, stop injected at every cancellation-chunk boundary; find_if over exactly-sized heap ranges for "
-              "every enumerated length/policy/match position with a predicate address monitor, compared with std::find_if; ASan/UBSan",
+              "every enumerated length/policy/match position with a predicate address monitor, compared with std::find_if; "
+              "execution-policy composition of stacked bulk_transforms over a source that honours the advertised policy "
+              "(overlap monitors on every function and on the receiver); ASan/UBSan",
     text="bulk_schedule(n) must call set_next for each index exactly once before set_value, never after or overlapping the "
          "terminal signal, never overlapping under sequenced policies; after a stop request the visited set must be a prefix "
          "of whole chunks followed by done. find_if must equal std::find_if and call the predicate only on elements of the "
-         "range, for every enumerated length (thorough: all of 0..1100).",
+         "range, for every enumerated length (thorough: all of 0..1100). For all 64 (function, function, receiver) policy "
+         "triples the policy advertised upstream must be the intersection, and no function or receiver that did not permit "
+         "parallel execution may be called concurrently by a source that honours the advertised policy.",
     note="Trusted base: harness/src/bulk.cpp, g++ ASan/UBSan. Exhaustive only over the enumerated lengths, policies and match positions.")
 
 CHECKS["C19"] = dict(
@@ -174,13 +182,17 @@ CHECKS["C19"] = dict(
     technique="runtime monitoring under stress: exactly-once completion counters, stop()-hook call counters and "
               "start/stop ordering flags on a raw operation wrapped in cancellable<>, operation states malloc'd and freed "
               "at completion (ASan), detach_on_cancel child-state ledger, stop_on_request fired from two threads, canary "
-              "destructor/guard/watcher triads; persistent racing threads with delay injection at the fetch_or/CAS sites; ASan and TSan",
+              "destructor/guard/watcher triads; create_basic_sender operations with safe/unsafe callbacks fired from a helper "
+              "thread, stop from another and stop requested from inside the operation's own handlers (completion counter, "
+              "stop-handler counter, handler-frame monitor, late-callback no-op rule); persistent racing threads with delay injection at the fetch_or/CAS sites; ASan and TSan",
     text="Natural completion (inline, or from a completer thread after 0-8 us, or never), a stop request (before start, "
          "concurrently with start, later) and the return of start() race on cancellable<raw,false/true>; exactly one of "
          "them may complete the receiver, stop() runs at most once and never before start() unless in skip-start mode, and "
          "freed operation states expose any later touch. The same discipline for detach_on_cancel (done delivered with the "
-         "stop request; abandoned child freed exactly once), stop_on_request and canary.",
-    note=MT_NOTE + " create_raw_sender / create_basic_sender are not driven.")
+         "stop request; abandoned child freed exactly once), stop_on_request and canary. create_basic_sender: the receiver is "
+         "completed exactly once and never from a frame nested in the operation's own handler, the stop handler runs at "
+         "most once and never after completion, a late safe callback is a no-op.",
+    note=MT_NOTE + " create_raw_sender (a plain factory without arbitration of its own) is not driven.")
 
 CHECKS["C13"] = dict(
     level="exploration", design="5 C13",
@@ -212,7 +224,8 @@ CHECKS["C14"] = dict(
     technique="runtime monitoring under stress: run()-thread identity of remotely scheduled items with idle/wake bursts, "
               "byte-stream integrity of unique 8-byte counters through pipes/files, sentinel-filled exactly-sized heap buffers "
               "freed after each operation (stale completions = ASan reports), cancellation before start / parked / racing "
-              "readiness, EPIPE error code, run(stop_token) return, /proc descriptor count; ASan and TSan, delay injection at the remote-queue sites",
+              "readiness, EPIPE error code, run(stop_token) return, /proc descriptor count, io_uring ring saturation (more "
+              "reads in flight than completion-ring slots while the loop goes idle); ASan and TSan, delay injection at the remote-queue sites",
     text="On io_epoll_context (pipes) and io_uring_context (files): items scheduled from other threads must run on the "
          "thread inside run() and none may be lost across idle gaps; each read/write completes exactly once with the number "
          "of bytes actually transferred and the bytes received equal the bytes sent; a cancelled read completes with done, "
